@@ -89,7 +89,7 @@ const fn q_tables() -> [[u8; 256]; 2] {
     t
 }
 /// q0 and q1 tabulated (computed from `q_calc`).
-pub const Q: [[u8; 256]; 2] = q_tables();
+pub static Q: [[u8; 256]; 2] = q_tables();
 pub fn q(i: usize, x: u8) -> u8 { Q[i][x as usize] }
 
 /// 4.2: z = MDS . y over GF(2^8)/v(x), Z = sum z_i 2^(8i).
